@@ -734,6 +734,11 @@ theorem inv_tick {c : Cfg} {st : StA} (hinv : InvA c st) (t : Nat) : InvA c { st
   cases hinv
   constructor <;> assumption
 
+theorem inv_extCancel {c : Cfg} {st : StA} (hinv : InvA c st) (hph : st.ph 0 = .running) :
+    InvA c { st with creq := setAt st.creq 0 true } := by
+  refine { hinv with creqLive := ?_ }
+  intro k; simp only [setAt]; have := hinv.creqLive k; grind [Ph.live]
+
 theorem inv_waitReturn {c : Cfg} (w : WF c) {st : StA} (hinv : InvA c st) {s : Nat} (D : List Nat)
     (hD : ∀ k ∈ D, k ∈ c.children s ∧ ((st.ph k).isDone = true ∨ st.ph k = .cancelled))
     (hpc : st.pc s = .loop) (hrx : st.rx s = none) :
@@ -973,6 +978,13 @@ theorem invA_step (c : Cfg) (hwf : c.wf = true) (st st' : StA) (e : EvA)
     split at h
     · cases h
       exact inv_tick hinv _
+    · cases h
+  | extCancel =>
+    simp only [stepA] at h
+    split at h
+    · rename_i hg
+      cases h
+      exact inv_extCancel hinv hg.1
     · cases h
 
 theorem invA_reach_from (c : Cfg) (hwf : c.wf = true) (evs : List EvA) :
